@@ -119,14 +119,13 @@ def handleObj (ws : List String) : String :=
           | [kind, keykind], some sp =>
             match keyOf keykind sp with
             | some (km, ks, dv) =>
-              -- FunctionLiteral.Source of an accessor: parseFunction sets it (statement.go:281), parseObjectProperty
-              -- (expression.go:267-299) does not — model: empty; spec: the text of the accessor definition
+              -- FunctionLiteral.Source of an accessor: the text of the accessor definition (parseObjectProperty: p.slice(start, Idx1))
               let text := (bytesToString? sp).getD ""
               let srcSpec := if kind = "get" then ":" ++ bytesOut (("get " ++ text ++ " ( ) { }").toUTF8.toList.map (·.toNat))
                              else if kind = "set" then ":" ++ bytesOut (("set " ++ text ++ " ( v ) { }").toUTF8.toList.map (·.toNat)) else ""
-              let srcModel := if kind = "value" then "" else ":"
+              let srcModel := srcSpec
               go r ((kind ++ ":" ++ bytesOut (km.toUTF8.toList.map (·.toNat)) ++ srcModel) :: m)
-                   ((kind ++ ":" ++ bytesOut (ks.toUTF8.toList.map (·.toNat)) ++ srcSpec) :: s) (dev || dv) (acc || kind != "value")
+                   ((kind ++ ":" ++ bytesOut (ks.toUTF8.toList.map (·.toNat)) ++ srcSpec) :: s) (dev || dv) acc
             | none => none
           | _, _ => none
         | _ => none
